@@ -15,6 +15,18 @@ def run(ck):
                          "INVARIANT ForwardWellFormed\nINVARIANT ForwardGivesTarget\nINVARIANT BackwardGivesShape\nINVARIANT SparseFusedAxes\nINVARIANT BackwardWithInsert\nCHECK_DEADLOCK FALSE\n"
                          % (4 if q else 6))
     ck.model("MC_Reshape.tla", cfg, timeout=3000)
+    # negative control: the routine as it was before the repair of F17 (ReshapeImpl!CalcOriginal) must be rejected on the
+    # sparse identity / unit-insertion requests - otherwise SparseFusedAxes above would be vacuous
+    ncfg = os.path.join(ck.scratch, "MC_ReshapeN.cfg")
+    open(ncfg, "w").write("SPECIFICATION Spec\nCONSTANTS\n  MaxAxes = 3\n  Sizes = {1, 2, 3, 4, 6}\n"
+                          "INVARIANT ControlOriginalSparse\nCHECK_DEADLOCK FALSE\n")
+    r, st = ck.model("MC_Reshape.tla", ncfg, workers=1, expect_ok=False)
+    ck.cov["models"][-1]["negative_control"] = True    # stops at the expected counterexample, hence not "complete"
+    hit = "Invariant ControlOriginalSparse is violated" in r["out"]
+    ck.cov["negative_controls"] = [{"instance": "MaxAxes=3", "routine": "CalcOriginal (before the repair of F17)",
+                                    "invariant": "ControlOriginalSparse", "violated_as_expected": hit}]
+    if not hit:
+        ck.problems.append("negative control (pre-F17 reshape parse) was not rejected by MC_Reshape")
     # Machine.tla, reshape instance: every merge / flatten / unit drop / unit insertion / way back of the arrays of the pool
     # (sparse ones leave fused axes SMALLER than the product of their pieces), model-checked and replayed
     from vlib import machine
